@@ -87,6 +87,22 @@ func (p c10) runIdentity(x *c10Exec, c *c10Case) c10Verdict {
 			return c10Verdict{Verdict: mon.Violated, Detail: fmt.Sprintf("[%s] %s printed a stream yaml.v3 cannot read (%v): %s", x.kind(), c.Cmd, perr, c10Clip(o.Stdout))}
 		}
 		if len(got) == n {
+			// a comment written before the leading `---` of a file belongs to that file: it must not end up in
+			// (the text region of) a document of the file before it
+			if c.rich != nil {
+				at := 0
+				for _, f := range c.rich {
+					if len(f.Prelude) > 0 && len(f.Docs) > 0 {
+						want := strings.Join(f.Prelude, "\n")
+						for i, d := range got {
+							if strings.Contains(strings.Join(d.Comments, "\n"), want) && i != at {
+								return c10Verdict{Verdict: mon.Violated, Detail: fmt.Sprintf("[%s] %s: the comment %q written before the leading `---` of %s ends up in output document %d, the file's first document is number %d\noutput: %s", x.kind(), c.Cmd, want, f.Name, i, at, c10Clip(o.Stdout))}
+							}
+						}
+					}
+					at += len(f.Docs)
+				}
+			}
 			continue
 		}
 		v := c10Verdict{Verdict: mon.Violated, Detail: fmt.Sprintf("[%s] %s: %d input documents, %d output documents\noutput: %s", x.kind(), c.Cmd, n, len(got), c10Clip(o.Stdout))}
